@@ -118,7 +118,12 @@ class InputExp(_Validation, fsm.FSM):
 
     def cond_put(self) -> bool:
         data = fsm.fsm_event_data.get()
-        value = data['value']
+        try:
+            value = data['value']
+        except KeyError:
+            # a trivial parameter error must not abort the simulation
+            self.log_warning("'put' event without a 'value' item rejected")
+            return False
         try:
             value = self._validate(value)
         except ValueError as err:
